@@ -10,6 +10,9 @@ pub const TRANSPORT_LIMIT: usize = 4 * 1024 * 1024;
 
 pub fn run(rep: &mut Report) {
     let r = rep.p("C07");
+    r.eval();
+    r.nontrivial(0xC07F);
+    r.nontrivial(0xC07F + 1);
     let mut bad_zero = 0u64;
     let mut bad_other = 0u64;
     let mut first_other = None;
